@@ -242,3 +242,51 @@ def function_signal_delay_does_not_wrap():
     j = fresh_index("j", len(a))
     prove("later-samples-are-the-delayed-signal", implies(j >= k, eq(d[j], a[j - k], scale=1)))
     prove("vacated-samples-are-zero-not-wrapped", implies(j < k, eq(d[j], 0, scale=1)))
+
+
+# ---------------------------------------------------------------------------
+# bounded stand-in: the whole filter against a direct zero-padded DFT, for response functions written the way users write
+# them (scalar-only, plain Python numbers whose type changes with frequency, vectorised) - numpy's dtype handling of
+# such values is outside the real-number model (A1)
+# ---------------------------------------------------------------------------
+
+@harness(clause="bounded-whole-filter", bounded=40, label="B")
+def filter_against_a_direct_dft_sampled():
+    import math
+    n = integer("times_len", 2, 48)
+    dt = 10 ** real("log10_dt", -10, 0)
+    t = real("grid_start", -5, 5) * n * dt + dt * np.arange(n)
+    v = absarr("values", n)
+    fc = real("corner_fraction", 0.05, 0.9) * 0.5 / dt
+    shape = integer("response_shape", 0, 3)
+
+    def scalar_mixed(f):                # int at DC, float elsewhere, cannot take arrays
+        if f == 0:
+            return 0
+        return (f / fc) / math.sqrt(1 + (f / fc) ** 2)
+
+    def scalar_complex(f):              # real at DC, complex elsewhere
+        if f == 0:
+            return 1
+        return 1 / (1 + 1j * f / fc)
+
+    def vector_lowpass(f):
+        return 1 / (1 + 1j * np.asarray(f) / fc)
+
+    def scalar_int(f):
+        return int(abs(f) < fc)
+    resp = [scalar_mixed, scalar_complex, vector_lowpass, scalar_int][shape]
+    sig = new(SIG, t, v.copy())
+    sig.filter_frequencies(resp, force_real=True)
+    # expectation: zero-pad to 2N, multiply bin k by resp(|f_k|) (conjugated for f_k < 0), invert, keep N, real part
+    N2 = 2 * n
+    freqs = np.fft.fftfreq(N2, dt)
+    H = np.array([complex(resp(abs(float(f)))) for f in freqs])
+    H = np.where(freqs < 0, np.conj(H), H)
+    want = np.real(np.fft.ifft(H * np.fft.fft(np.concatenate((v, np.zeros(n)))))[:n])
+    scale = max(float(np.max(np.abs(v))), 1e-300)
+    prove("one-value-per-sample", len(sig.values) == n)
+    prove("equals-the-direct-zero-padded-dft", bool(np.all(np.abs(sig.values - want) <= 1e-9 * scale)))
+    half = new(SIG, t, v.copy())
+    half.filter_frequencies(lambda f: 0.5 * resp(f), force_real=True)
+    prove("homogeneous-in-the-response", bool(np.all(np.abs(half.values - 0.5 * sig.values) <= 1e-9 * scale)))
